@@ -180,12 +180,14 @@ CompareRow(e, c, ret, r) ==
   \* ret.item is the predicted row, r.item the logged one; returns a code or "ok"
   LET p == ret.item
       o == r.item
-  IN  IF o.line # p.line THEN "row.line"
-      ELSE IF ~SameSV(o.inputs, p.inputs) THEN InputsCode(o.inputs, p.inputs)
+  \* (the CONTENT of the row first: a row that is not the predicted one at all - another source row, another expansion - is
+  \* reported by what it contains; `row.line` is left for a row that is the predicted one in everything but its line)
+  IN  IF ~SameSV(o.inputs, p.inputs) THEN InputsCode(o.inputs, p.inputs)
       ELSE IF ~ChangedSound(ct, o.inputs, e.lastIn) THEN "changed"
       ELSE IF Len(o.outputs) # Len(p.outputs) THEN "row.outputs.len"
       ELSE IF \E k \in DOMAIN p.outputs : o.outputs[k].s # p.outputs[k].s THEN "row.outputs.sig"
       ELSE IF \E k \in DOMAIN p.outputs : o.outputs[k].exp # p.outputs[k].exp THEN ExpectedCode(o.outputs, p.outputs)
+      ELSE IF o.line # p.line THEN "row.line"
       ELSE IF ~AttrOutputs(ct, o.outputs, r.answer.outs)
            THEN (IF Misattributed(ct, o.outputs, r.answer.outs) THEN "attr.mis" ELSE "attr.output")
       ELSE IF \E k \in DOMAIN p.outputs : o.outputs[k].out # p.outputs[k].out THEN "row.output"
